@@ -315,6 +315,42 @@ func pairScenario(name string, vals []*rm.Value) *scenario {
 	}}
 }
 
+// sessionScenario: every thread runs its own Encode+Decode `rounds` times in a row on fresh objects: whatever a thread's
+// first call leaves behind in the library (a cached look-up, a warmed scratch area) is there when its second call
+// runs, possibly replaced in between by the other thread; every round must equal the sequential result.
+func sessionScenario(name string, vals []*rm.Value, rounds int) *scenario {
+	want := make([]*codecResult, len(vals))
+	for i, v := range vals {
+		want[i] = runCodec(v)
+	}
+	return &scenario{Name: name, Setup: func() ([]func(), func(x *vrt.Exec) *finding) {
+		restoreGlobals()
+		got := make([][]*codecResult, len(vals))
+		bodies := make([]func(), len(vals))
+		for i, v := range vals {
+			i, v := i, v
+			bodies[i] = func() {
+				for k := 0; k < rounds; k++ {
+					got[i] = append(got[i], runCodec(v))
+				}
+			}
+		}
+		return bodies, func(x *vrt.Exec) *finding {
+			for i := range vals {
+				if len(got[i]) != rounds {
+					return &finding{Kind: "thread-did-not-finish", Detail: fmt.Sprint("thread ", i)}
+				}
+				for k, g := range got[i] {
+					if d := sameResult(want[i], g); d != "" {
+						return &finding{Kind: "result-differs-from-sequential", Detail: fmt.Sprintf("thread %d (%s) round %d: %s", i, vals[i].Type.QName(), k+1, d)}
+					}
+				}
+			}
+			return nil
+		}
+	}}
+}
+
 func c20Plan(thorough bool) *plan {
 	snapshotGlobals()
 	var scs []*scenario
@@ -341,6 +377,26 @@ func c20Plan(thorough bool) *plan {
 	for i, t := range bind.Types {
 		u := bind.Types[(i+1)%len(bind.Types)]
 		scs = append(scs, pairScenario(t.QName()+" x "+u.QName(), []*rm.Value{valenum.Distinct(t), valenum.Distinct(u)}))
+	}
+	// "any mix of protocols": every pair of the five frame types (and each with itself), each thread running two
+	// rounds; the frames share the checksum-service registry and their protocol's discriminator tables
+	{
+		frames := map[string]*rm.Type{}
+		for _, t := range bind.Types {
+			if t.DynField() >= 0 && t.Proto.Table(t.Fields[t.DynField()].Factory).KeyKind != "text" {
+				frames[t.Proto.Protocol] = t
+			}
+		}
+		names := []string{"sse", "szse", "bjse", "risk", "sample"}
+		for i := range names {
+			for j := i; j < len(names); j++ {
+				a, b := frames[names[i]], frames[names[j]]
+				if a == nil || b == nil {
+					continue
+				}
+				scs = append(scs, sessionScenario(a.QName()+" x "+b.QName()+" sessions of 2", []*rm.Value{valenum.Distinct(a), valenum.Distinct(b)}, 2))
+			}
+		}
 	}
 	if thorough {
 		// one cross-protocol pair per pair of packages, using the frame types (they share the checksum registry's read lock)
